@@ -527,6 +527,29 @@ func judge(sc Scenario, attempts []attempt, results []result, logs [][]simprom.R
 		}
 	}
 	digest := fnv.New64a()
+	type rejectedAnswer struct {
+		mode string
+		seq  int64
+	}
+	// question -> upstream -> the errors caused by the query that this upstream answered it with (and when)
+	rejected := map[string]map[int][]rejectedAnswer{}
+	identOf := map[int]string{}
+	for _, r := range results {
+		identOf[r.ID] = fmt.Sprintf("%d/%d", r.Op.Kind, r.Op.Q)
+	}
+	for up := range logs {
+		for _, lr := range logs[up] {
+			tag, ok := lr.ConnTag.(connTag)
+			if !ok || class(lr.Outcome) != clsMustNot || lr.EndSeq == 0 {
+				continue
+			}
+			id := identOf[tag.op]
+			if rejected[id] == nil {
+				rejected[id] = map[int][]rejectedAnswer{}
+			}
+			rejected[id][up] = append(rejected[id][up], rejectedAnswer{mode: lr.Outcome, seq: lr.EndSeq})
+		}
+	}
 	uri := func(u int) string { return fmt.Sprintf("http://prom%d:9090", u) }
 	for _, r := range results {
 		fmt.Fprintf(digest, "%d:%v:%v;", r.ID, r.Answers, r.Err)
@@ -675,6 +698,49 @@ func judge(sc Scenario, attempts []attempt, results []result, logs [][]simprom.R
 					out.Probes["cache_hit"]++
 				} else {
 					setViol("foreign-result", fmt.Sprintf("%s received the answer fetched for op %d", who, op))
+				}
+			}
+		}
+		// an error caused by the query itself may be remembered too (the property does not say a rejected
+		// question must be sent again): an operation that ends with exactly the error an upstream gave to the same
+		// question before, attributed to that upstream, was answered by it - from memory, without a connection
+		shared := r.Op.Kind == kConfig || r.Op.Kind == kFlags || r.Op.Q >= 0
+		ident := fmt.Sprintf("%d/%d", r.Op.Kind, r.Op.Q)
+		if r.Err != nil && shared {
+			lastSeen := -1
+			if len(visited) > 0 {
+				lastSeen = visited[len(visited)-1]
+			}
+			explained := false // does what the last upstream really did already account for this error?
+			var fe *promapi.FailoverGroupError
+			isFE := errors.As(r.Err, &fe)
+			if lastSeen >= 0 {
+				for _, m := range failed[lastSeen] {
+					if !errMatchesMode(r.Err, m) {
+						continue
+					}
+					// behaviours the property leaves open match any error: there the upstream the error is attributed to decides
+					if class(m) != clsEither || sc.PublicURI || !isFE || fe.URI() == uri(lastSeen) {
+						explained = true
+					}
+				}
+			}
+			if !explained && isFE {
+				for u := lastSeen + 1; u < sc.Upstreams; u++ {
+					hit := false
+					for _, m := range rejected[ident][u] {
+						if m.seq < r.Ret && errMatchesMode(r.Err, m.mode) && (sc.PublicURI || fe.URI() == uri(u)) {
+							visited = append(visited, u)
+							seen[u] = true
+							failed[u] = []string{m.mode}
+							out.Probes["rejected_question_answered_from_memory"]++
+							hit = true
+							break
+						}
+					}
+					if hit {
+						break
+					}
 				}
 			}
 		}
